@@ -48,6 +48,11 @@ CHECKS["C05"] = ("exploration",
  "Every derivation (<= 3 nodes, thorough 4) of a mutation-prone grammar (update, delete, add, sort, slice, accumulate, container constants, variables, ~55 forms), every builtin reported by `builtins` applied with a small argument set, and every corpus query is run on 10 inputs built with aliased substructure, spare capacity filled with sentinels, json.Number and *big.Int leaves, through a fixed set of histories of one *Code: drained three times on the same input object, on a fresh equal copy, abandoned after one output then another input then again, and two live iterators advanced alternately. After every step deep snapshots (including spare capacity) of the input, the variable value, every container constant of the instruction list and every value emitted so far are compared with their originals; output sequences and Marshal bytes of every run are compared with run 1. A run that no longer terminates is a violation too (watchdog).",
  "Go map iteration order cannot be enumerated by a harness: dependence on it is re-sampled by the repeated runs only. Same-value writes are invisible here (C06).",
  "DESIGN.md §4 C05")
+CHECKS["C08"] = ("exploration",
+ "exhaustive single-byte mutation of the query corpus, builtin x boundary-value grid, size families, and all CLI argument sequences up to length 3",
+ "(a) every deletion, insertion and replacement of a 40-token alphabet at every byte position of every corpus query is parsed and, if accepted, compiled, run on 3 inputs under a poll budget and rendered (Marshal, Preview, Error()); (b) every builtin name/arity is called with every value of a 60-value universe of wrong-typed and boundary values in all Go representations (NaN/inf, huge *big.Int, out-of-range json.Number, invalid UTF-8) as input and arguments; (b2) 28 size families (k bindings, defs, parameters, interpolations, nesting depths, labels, recursion depth, k variables through WithVariables and --arg) for every k = 1..140 (thorough 600), which puts a case on every capacity threshold; (c) every argument sequence of length <= 3 over a 50-token alphabet x 7 stdin texts in-process (hook VerifRun, under recover), a deterministic 2% slice again through the real binary. Per case: no panic or fatal error, ParseError.Offset within the source, failures as error values, exit status in 0..5, no Go stack trace on stderr.",
+ "Hangs and memory exhaustion of individual cases are recorded as skipped (the statement excludes programs that legitimately need unbounded resources); corpus queries that deliberately test resource limits are not used as mutation bases.",
+ "DESIGN.md §4 C08")
 NOT_YET = "check not built yet (work in progress in this session); see DESIGN.md for the planned exploration"
 
 def commits():
